@@ -446,6 +446,9 @@ impl OutputFormat for IcyDraw {
                                                         break;
                                                     }
                                                     for x in 0..layer.get_width() {
+                                                        if o + 2 > bytes.len() {
+                                                            return Err(anyhow::anyhow!("data length out ouf bounds"));
+                                                        }
                                                         let mut attr = u16::from_le_bytes(bytes[o..(o + 2)].try_into().unwrap());
                                                         o += 2;
                                                         if attr == crate::attribute::INVISIBLE_SHORT {
@@ -464,6 +467,9 @@ impl OutputFormat for IcyDraw {
                                                         }
 
                                                         let (ch, fg, bg, font_page) = if is_short {
+                                                            if o + 4 > bytes.len() {
+                                                                return Err(anyhow::anyhow!("data length out ouf bounds"));
+                                                            }
                                                             let ch = bytes[o] as u32;
                                                             o += 1;
                                                             let fg = bytes[o] as u32;
@@ -474,6 +480,9 @@ impl OutputFormat for IcyDraw {
                                                             o += 1;
                                                             (ch, fg, bg, font_page)
                                                         } else {
+                                                            if o + 14 > bytes.len() {
+                                                                return Err(anyhow::anyhow!("data length out ouf bounds"));
+                                                            }
                                                             let ch = u32::from_le_bytes(bytes[o..(o + 4)].try_into().unwrap());
                                                             o += 4;
                                                             let fg = u32::from_le_bytes(bytes[o..(o + 4)].try_into().unwrap());
